@@ -421,6 +421,14 @@ func exec(h *rt.H, s *state, op string) string {
 	case "pdel":
 		k := atoi(w[1])
 		s.touch(k)
+		if _, pend := s.t.UGet(k); pend {
+			if _, indp := s.t.PGet(k); indp {
+				// dataplane delete of a key whose pending update sits on top of a different dataplane value
+				h.Count("pdel:pending-value-mismatch")
+			} else {
+				h.Count("pdel:pending-absent")
+			}
+		}
 		s.t.PDel(k)
 		delete(s.dp, k)
 	case "ddelall":
